@@ -37,7 +37,7 @@ def main():
         rc, o = sh("go build ./... && go test -vet=off -count=1 ./...", cwd=scratch)
         meta["suite_passes_with_change"] = rc == 0
         meta["ran"].append("go build ./... && go test -vet=off -count=1 ./...  (with change, without demo): rc=%d" % rc)
-        shutil.copy(os.path.join(out, "zz_demo_test.go"), os.path.join(scratch, demo_rel))
+        shutil.copy(os.path.join(out, "zz_demo_test.go") if os.path.exists(os.path.join(out, "zz_demo_test.go")) else os.path.join(src, demo_rel), os.path.join(scratch, demo_rel))
         pkgdir = os.path.dirname(demo_rel) or "."
         rc, o = sh("go test " + os.environ.get('VERIF_DEMO_FLAGS', '') + " -vet=off -count=1 -run 'Demo' ./%s" % pkgdir, cwd=scratch)
         meta["demo_fails_with_change"] = rc != 0
@@ -54,7 +54,7 @@ def main():
     dest = "/verif/seeded/%s" % sid
     os.makedirs(dest, exist_ok=True)
     shutil.copy(os.path.join(out, "patch.diff"), dest)
-    shutil.copy(os.path.join(out, "zz_demo_test.go"), os.path.join(dest, "zz_demo_test.go.txt"))
+    shutil.copy(os.path.join(src, demo_rel), os.path.join(dest, "zz_demo_test.go.txt"))
     if os.path.exists(os.path.join(out, "README.md")):
         shutil.copy(os.path.join(out, "README.md"), os.path.join(dest, "AGENT_README.md"))
     # run checks with the patch applied: against /repo itself, or (VERIF_SEED_SCRATCH=1) against a scratch
